@@ -18,7 +18,7 @@ class HarnessError(Exception):
 
 TIERS = {
     # runs for quick; default budget seconds for thorough
-    "C13": {"quick_runs": 6000, "thorough_budget": 900, "xproc_quick": 48, "xproc_thorough": 320},
+    "C13": {"quick_runs": 5000, "thorough_budget": 900, "xproc_quick": 48, "xproc_thorough": 320},
     "C14": {"quick_runs": 5000, "thorough_budget": 900, "xproc_quick": 0, "xproc_thorough": 0},
     "C19": {"quick_runs": 2500, "thorough_budget": 900, "xproc_quick": 32, "xproc_thorough": 160},
 }
